@@ -65,7 +65,7 @@ def raw_of(obj):
     if hasattr(d, "as_numpy_dtype"):
         raw["asNumpyName"] = d.as_numpy_dtype.__name__
     if isinstance(d, str):
-        raw["strVal"] = d
+        raw["strVal"] = str.__str__(d)      # the plain text, also for str subclasses (enum members, numpy.str_)
     else:
         raw["reprFull"] = repr(d)
     return raw
@@ -149,6 +149,17 @@ def gather(with_tf=True):
             for be, prefix in (("duck-mlx", "mlx.core."), ("duck-deep", "some.deeply.nested.lib."), ("duck-bare", "")):
                 rows.append(dict(canon=nm, kind=k, backend=be, alias=nm, make=(lambda n, p: lambda: DuckArr(TorchStyleDtype(n, p)))(nm, prefix)))
     rows.append(dict(canon="my_dtype", kind="other", backend="duck-str", alias="my_dtype", make=lambda: DuckArr("my_dtype")))
+    # string dtypes carried by SUBCLASSES of str: members of a `class DType(str, Enum)`, of an `enum.StrEnum`, `numpy.str_`
+    import enum
+
+    names = ["float32", "bfloat16", "int8", "uint8", "bool", "complex64"]
+    MixinEnum = enum.Enum("MixinEnum", {n: n for n in names}, type=str)
+    StrEnum_ = enum.StrEnum("StrEnum_", {n: n for n in names})
+    for nm in names:
+        k = dict(numeric).get(nm, "bool" if nm == "bool" else "other")
+        for be, mk in (("duck-str-enum", (lambda n: lambda: DuckArr(MixinEnum[n]))(nm)), ("duck-strenum", (lambda n: lambda: DuckArr(StrEnum_[n]))(nm)),
+                       ("duck-npstr", (lambda n: lambda: DuckArr(np.str_(n)))(nm))):
+            rows.append(dict(canon=nm, kind=k, backend=be, alias=nm, make=mk))
     for r in rows:
         r["raw"] = raw_of(r["make"]())
     return rows
